@@ -3,6 +3,7 @@ NEXT Next
 CONSTANTS
   MaxTargets = 2
   ChainAny = FALSE
+  FlagBlind = FALSE
 INVARIANT AppliedIsIntended
 INVARIANT EmitCase
 CHECK_DEADLOCK FALSE
